@@ -1,0 +1,323 @@
+//go:build verif
+
+// Package verifhook provides named suspension points, fault points, events and
+// counters for external runtime monitors. This file is only compiled with the
+// "verif" build tag.
+//
+// Environment:
+//
+//	GROG_VERIF_LOG   path of a JSON-lines event log (O_APPEND, one write per event)
+//	GROG_VERIF_PLAN  ';'-separated rules "pattern=action[:arg[:arg2]]"; pattern is a point
+//	                 name, a prefix followed by '*', or '*'. Each rule keeps its own hit
+//	                 counter. Actions:
+//	                   delay:USEC          sleep at every hit
+//	                   yield:K             runtime.Gosched K times at every hit
+//	                   kill:N              SIGKILL this process at the N-th hit
+//	                   sig:N:INT|TERM      send the signal to this process at the N-th hit
+//	                   err:N[:M]           Fault returns an error at hits N..M (M defaults to N; M=0 means forever)
+//	                   pause               connect to GROG_VERIF_CTL, announce the point, block until answered
+//	GROG_VERIF_CTL   unix socket path of a step controller (used by the pause action)
+//	GROG_VERIF_COUNTS path to which counters are written by DumpCounts (called at exit points)
+package verifhook
+
+import (
+	"bufio"
+	"encoding/json"
+	"fmt"
+	"net"
+	"os"
+	"runtime"
+	"sort"
+	"strconv"
+	"strings"
+	"sync"
+	"sync/atomic"
+	"syscall"
+	"time"
+)
+
+// Enabled reports whether the hooks were compiled in.
+const Enabled = true
+
+type rule struct {
+	pattern string
+	action  string
+	a1, a2  int64
+	s       string
+	hits    atomic.Int64
+}
+
+type record struct {
+	Seq  int64    `json:"seq"`
+	Mono int64    `json:"mono"`
+	Pid  int      `json:"pid"`
+	Kind string   `json:"kind"`
+	Name string   `json:"name"`
+	KV   []string `json:"kv,omitempty"`
+}
+
+// Handler lets an in-process driver observe and steer hook calls. It is called
+// for every Point ("point"), Fault ("fault") and Event ("event"); a non-nil
+// error returned for a fault call is handed to the caller of Fault.
+type Handler func(kind, name string, kv []string) error
+
+var (
+	initOnce sync.Once
+	active   atomic.Bool
+	rules    []*rule
+	logFile  *os.File
+	logMu    sync.Mutex
+	seq      int64
+	ctlConn  net.Conn
+	ctlRd    *bufio.Reader
+	ctlMu    sync.Mutex
+	handler  atomic.Pointer[Handler]
+	counts   sync.Map // name -> *atomic.Int64
+	start    = time.Now()
+)
+
+func setup() {
+	if p := os.Getenv("GROG_VERIF_LOG"); p != "" {
+		f, err := os.OpenFile(p, os.O_WRONLY|os.O_APPEND|os.O_CREATE, 0644)
+		if err == nil {
+			logFile = f
+			active.Store(true)
+		}
+	}
+	if plan := os.Getenv("GROG_VERIF_PLAN"); plan != "" {
+		for _, part := range strings.Split(plan, ";") {
+			part = strings.TrimSpace(part)
+			if part == "" {
+				continue
+			}
+			eq := strings.Index(part, "=")
+			if eq < 0 {
+				continue
+			}
+			r := &rule{pattern: part[:eq]}
+			fields := strings.Split(part[eq+1:], ":")
+			r.action = fields[0]
+			if len(fields) > 1 {
+				r.a1, _ = strconv.ParseInt(fields[1], 10, 64)
+			}
+			if len(fields) > 2 {
+				if v, err := strconv.ParseInt(fields[2], 10, 64); err == nil {
+					r.a2 = v
+				} else {
+					r.s = fields[2]
+				}
+			} else if r.action == "err" {
+				r.a2 = r.a1
+			}
+			rules = append(rules, r)
+		}
+		if len(rules) > 0 {
+			active.Store(true)
+		}
+	}
+	if os.Getenv("GROG_VERIF_COUNTS") != "" {
+		active.Store(true)
+	}
+}
+
+func (r *rule) matches(name string) bool {
+	if r.pattern == "*" || r.pattern == name {
+		return true
+	}
+	if strings.HasSuffix(r.pattern, "*") {
+		return strings.HasPrefix(name, r.pattern[:len(r.pattern)-1])
+	}
+	return false
+}
+
+// SetHandler installs (or with nil removes) an in-process handler.
+func SetHandler(h Handler) {
+	initOnce.Do(setup)
+	if h == nil {
+		handler.Store(nil)
+		return
+	}
+	handler.Store(&h)
+	active.Store(true)
+}
+
+func monoNow() int64 {
+	var ts syscall.Timespec
+	// CLOCK_MONOTONIC = 1: one clock for every process on the machine.
+	_, _, e := syscall.Syscall(syscall.SYS_CLOCK_GETTIME, 1, uintptr(unsafePointer(&ts)), 0)
+	if e != 0 {
+		return time.Since(start).Nanoseconds()
+	}
+	return ts.Sec*1e9 + ts.Nsec
+}
+
+func emit(kind, name string, kv []string) {
+	if logFile == nil {
+		return
+	}
+	logMu.Lock()
+	seq++
+	rec := record{Seq: seq, Mono: monoNow(), Pid: os.Getpid(), Kind: kind, Name: name, KV: kv}
+	b, _ := json.Marshal(rec)
+	b = append(b, '\n')
+	_, _ = logFile.Write(b)
+	logMu.Unlock()
+}
+
+func pause(name string, kv []string) {
+	ctlMu.Lock()
+	defer ctlMu.Unlock()
+	if ctlConn == nil {
+		path := os.Getenv("GROG_VERIF_CTL")
+		if path == "" {
+			return
+		}
+		c, err := net.Dial("unix", path)
+		if err != nil {
+			return
+		}
+		ctlConn = c
+		ctlRd = bufio.NewReader(c)
+	}
+	id := os.Getenv("GROG_VERIF_ID")
+	_, err := fmt.Fprintf(ctlConn, "%s %d %s %s\n", id, os.Getpid(), name, strings.Join(kv, ","))
+	if err != nil {
+		return
+	}
+	// Block until the controller answers with one line.
+	_, _ = ctlRd.ReadString('\n')
+}
+
+func apply(kind, name string, kv []string) error {
+	var result error
+	for _, r := range rules {
+		if !r.matches(name) {
+			continue
+		}
+		n := r.hits.Add(1)
+		switch r.action {
+		case "delay":
+			time.Sleep(time.Duration(r.a1) * time.Microsecond)
+		case "yield":
+			for i := int64(0); i < r.a1; i++ {
+				runtime.Gosched()
+			}
+		case "kill":
+			if n == r.a1 {
+				emit("action", "kill", []string{"at", name, "hit", strconv.FormatInt(n, 10)})
+				_ = syscall.Kill(os.Getpid(), syscall.SIGKILL)
+				select {}
+			}
+		case "sig":
+			if n == r.a1 {
+				sig := syscall.SIGINT
+				if r.s == "TERM" {
+					sig = syscall.SIGTERM
+				}
+				emit("action", "sig", []string{"at", name, "hit", strconv.FormatInt(n, 10), "sig", r.s})
+				_ = syscall.Kill(os.Getpid(), sig)
+			}
+		case "err":
+			if kind == "fault" && n >= r.a1 && (r.a2 == 0 || n <= r.a2) {
+				result = fmt.Errorf("verifhook: injected fault at %s (hit %d)", name, n)
+			}
+		case "pause":
+			pause(name, kv)
+		}
+	}
+	return result
+}
+
+// Point marks a suspension point between two steps of the surrounding code.
+func Point(name string, kv ...string) {
+	initOnce.Do(setup)
+	if !active.Load() {
+		return
+	}
+	emit("point", name, kv)
+	if h := handler.Load(); h != nil {
+		_ = (*h)("point", name, kv)
+	}
+	_ = apply("point", name, kv)
+}
+
+// Fault returns an injected error for the named operation, or nil.
+func Fault(name string, kv ...string) error {
+	initOnce.Do(setup)
+	if !active.Load() {
+		return nil
+	}
+	var err error
+	if h := handler.Load(); h != nil {
+		err = (*h)("fault", name, kv)
+	}
+	if e := apply("fault", name, kv); e != nil {
+		err = e
+	}
+	if err != nil {
+		emit("fault", name, append(append([]string{}, kv...), "err", err.Error()))
+	}
+	return err
+}
+
+// Event records a semantic event.
+func Event(name string, kv ...string) {
+	initOnce.Do(setup)
+	if !active.Load() {
+		return
+	}
+	emit("event", name, kv)
+	if h := handler.Load(); h != nil {
+		_ = (*h)("event", name, kv)
+	}
+}
+
+// Count increments a named operation counter.
+func Count(name string) {
+	v, ok := counts.Load(name)
+	if !ok {
+		v, _ = counts.LoadOrStore(name, new(atomic.Int64))
+	}
+	v.(*atomic.Int64).Add(1)
+}
+
+// Counts returns a snapshot of all counters.
+func Counts() map[string]int64 {
+	out := map[string]int64{}
+	counts.Range(func(k, v any) bool {
+		out[k.(string)] = v.(*atomic.Int64).Load()
+		return true
+	})
+	return out
+}
+
+// ResetCounts zeroes all counters.
+func ResetCounts() {
+	counts.Range(func(k, v any) bool {
+		v.(*atomic.Int64).Store(0)
+		return true
+	})
+}
+
+// DumpCounts appends the counters as one JSON line to GROG_VERIF_COUNTS (if set).
+func DumpCounts(label string) {
+	initOnce.Do(setup)
+	p := os.Getenv("GROG_VERIF_COUNTS")
+	if p == "" {
+		return
+	}
+	c := Counts()
+	keys := make([]string, 0, len(c))
+	for k := range c {
+		keys = append(keys, k)
+	}
+	sort.Strings(keys)
+	m := map[string]any{"label": label, "pid": os.Getpid(), "counts": c}
+	b, _ := json.Marshal(m)
+	f, err := os.OpenFile(p, os.O_WRONLY|os.O_APPEND|os.O_CREATE, 0644)
+	if err != nil {
+		return
+	}
+	_, _ = f.Write(append(b, '\n'))
+	_ = f.Close()
+}
